@@ -1615,7 +1615,7 @@ class XMLSchemaBase(XsdValidator, ElementPathMixin[Union[SchemaType, XsdElement]
             if result is not Empty:
                 yield result
 
-        if context.max_depth is not None:
+        if context.max_depth is None:
             yield from self._validate_references(validation, context)
 
     def decode(self, source: Union[XMLSourceType, XMLResource],
